@@ -1030,6 +1030,7 @@ package fsutil
 //@   modifies type sender
 //@   effects GoSpawn GroupWait MuLock MuUnlock Progress
 //@   at call sender.run: wiring: isptr(arg0.conn, syncStream) && asptr(arg0.conn, syncStream).Stream == conn && isptr(arg0.fs, hardlinkFilter) && asptr(arg0.fs, hardlinkFilter).fs == fs && arg0.files != nil && len(arg0.files) == 0 && arg0.sendpipeline != nil
+//@   at call sender.run: progress_plumbed: arg0.progressCb == progressCb && arg0.progressCurrent == 0
 
 // ghost markers: the two-way diff / the disk writer's final wait returned success
 //@ effectdecl DiffOK()
@@ -1089,6 +1090,8 @@ package fsutil
 //@   modifies heap
 //@   effects *
 //@   at call receiver.run: wiring: isptr(arg0.conn, syncStream) && asptr(arg0.conn, syncStream).Stream == conn && arg0.dest == dest && arg0.files != nil && arg0.pipes != nil && len(arg0.files) == 0 && len(arg0.pipes) == 0 && arg0.merge == opt.Merge && arg0.differ == opt.Differ
+// every option reaches the receiver unchanged; its validators start empty
+//@   at call receiver.run: options_plumbed: arg0.notifyHashed == opt.NotifyHashed && arg0.contentHasher == opt.ContentHasher && arg0.progressCb == opt.ProgressCb && arg0.filter == opt.Filter && arg0.metadataOnly == opt.MetadataOnly && arg0.orderValidator.parentDirs == nil && arg0.hlValidator.seenFiles == nil
 
 // exactly one data callback must be configured; the group of content writers is unbounded (no
 // GroupLimit effect is allowed here): HandleChange runs on the diff goroutine, and if starting
@@ -1097,3 +1100,64 @@ package fsutil
 //@ func NewDiskWriter
 //@   property C01 C05
 //@   ensures exclusive: result1 == nil ==> result0 != nil && result0.dirModTimes != nil && (result0.opt.SyncDataCb == nil || result0.opt.AsyncDataCb == nil) && !(result0.opt.SyncDataCb == nil && result0.opt.AsyncDataCb == nil) && result0.dest == dest
+
+// ---------------------------------------------------------------------------
+// small adaptors and wrappers (round 2b)
+// ---------------------------------------------------------------------------
+
+// a walked entry answers from its stat when it has one, else from the underlying os entry
+//@ func DirEntryInfo.IsDir
+//@   property C09 C17
+//@   requires s != nil
+//@   ensures from_stat: s.Stat != nil ==> result == (os.FileMode(s.Stat.Mode) & os.ModeDir != 0)
+//@   ensures from_entry: s.Stat == nil ==> result == s.entry.IsDir()
+//@ func DirEntryInfo.Type
+//@   property C09 C17
+//@   requires s != nil
+//@   ensures from_stat: s.Stat != nil ==> result == os.FileMode(s.Stat.Mode)
+//@   ensures from_entry: s.Stat == nil ==> result == s.entry.Type()
+//@ func DirEntryInfo.Name
+//@   property C09 C17
+//@   requires s != nil
+//@   ensures from_stat: s.Stat != nil ==> result == filepath.Base(s.Stat.Path)
+//@   ensures from_entry: s.Stat == nil ==> result == s.entry.Name()
+
+// the re-canonicalised hard-link entry hands out exactly its rewritten stat
+//@ func dirEntryWithStat.Info
+//@   property C11
+//@   requires d != nil
+//@   ensures rewritten_stat: result1 == nil && isptr(result0, StatInfo) && asptr(result0, StatInfo) != nil && asptr(result0, StatInfo).Stat == d.stat
+
+// device nodes and fifos: one mknod with the given mode and the recombined device number
+//@ func createSpecialFile
+//@   property C01 C13
+//@   mode bv
+//@   requires stat != nil
+//@   effects Mknod
+//@   ensures once: cnt(Mknod) == old(cnt(Mknod)) + 1 && arg(Mknod, 0) == path && arg(Mknod, 1) == mode && arg(Mknod, 2) == int(unix.Mkdev(uint32(stat.Devmajor), uint32(stat.Devminor)))
+
+//@ func renameFile
+//@   property C01 C03
+//@   effects Rename
+//@   ensures once: cnt(Rename) == old(cnt(Rename)) + 1 && arg(Rename, 0) == src && arg(Rename, 1) == dst
+//@   ensures err: (result == nil) ==> true
+
+// a view is rooted at an existing directory (the root argument is resolved first)
+//@ func NewFS
+//@   property C09 C14
+//@   effects Stat StatRes
+//@   ensures rooted_at_a_directory: result1 == nil ==> isptr(result0, fs) && asptr(result0, fs) != nil && fresh(asptr(result0, fs)) && arg(StatRes, 0) != nil && arg(StatRes, 0).IsDir() && arg(Stat, 0) == asptr(result0, fs).root
+
+// only Apple's resource-fork style attributes are skipped when reading xattrs
+//@ func skipXattr
+//@   property C09 C01
+//@   ensures result == strings.HasPrefix(key, "com.apple.")
+
+// the walker over the existing destination hands every entry to the diff with the stat the walk
+// produced for it (never without one), under the walk's path
+//@ func getWalkerFn$1$1
+//@   property C01 C02 C05
+//@   effects ChanSend
+//@   ensures passerr: err != nil ==> result == err && cnt(ChanSend) == old(cnt(ChanSend))
+//@   ensures nostat: err == nil && !isptr(f.Sys(), types.Stat) ==> result != nil && cnt(ChanSend) == old(cnt(ChanSend))
+//@   ensures forwarded: cnt(ChanSend) > old(cnt(ChanSend)) ==> cnt(ChanSend) == old(cnt(ChanSend)) + 1 && ptr(arg(ChanSend, 1), currentPath).path == path && ptr(arg(ChanSend, 1), currentPath).stat == asptr(f.Sys(), types.Stat)
